@@ -42,33 +42,55 @@ use super::{
     ParserInput,
 };
 
+/// Parse the optional `-` in front of a literal operand. Returns whether the literal is negated.
+///
+/// Any other token (including the other operators, which cannot start a literal) is left in place,
+/// so that the literal parser that follows reports an ordinary "expected token" error.
+fn parse_literal_sign<'a>(input: ParserInput<'a>) -> InternalParserResult<'a, bool> {
+    match super::split_first_token(input) {
+        Some((Token::Operator(Operator::Minus), remainder)) => Ok((remainder, true)),
+        _ => Ok((input, false)),
+    }
+}
+
+/// Parse an optionally negated real literal.
+fn parse_signed_real_literal<'a>(input: ParserInput<'a>) -> InternalParserResult<'a, f64> {
+    let (input, negative) = parse_literal_sign(input)?;
+    let (input, value) = token!(Float(v))(input)?;
+    Ok((input, if negative { -value } else { value }))
+}
+
+/// Parse an optionally negated integer literal that has to fit a signed 64-bit operand.
+///
+/// The lexer produces the magnitude as a `u64`; a value outside of `i64::MIN..=i64::MAX` is an
+/// error rather than being wrapped around.
+fn parse_signed_integer_literal<'a>(input: ParserInput<'a>) -> InternalParserResult<'a, i64> {
+    let (after_sign, negative) = parse_literal_sign(input)?;
+    let (remainder, magnitude) = token!(Integer(v))(after_sign)?;
+    let value = if negative {
+        0i64.checked_sub_unsigned(magnitude)
+    } else {
+        i64::try_from(magnitude).ok()
+    };
+    match value {
+        Some(value) => Ok((remainder, value)),
+        None => Err(nom::Err::Failure(InternalParseError::from_kind(
+            input,
+            ParserErrorKind::UnsupportedPrecision,
+        ))),
+    }
+}
+
 /// Parse the operand of an arithmetic instruction, which may be a literal integer, literal real
 /// number, or memory reference.
 pub(crate) fn parse_arithmetic_operand<'a>(
     input: ParserInput<'a>,
 ) -> InternalParserResult<'a, ArithmeticOperand> {
     alt((
+        map(parse_signed_real_literal, ArithmeticOperand::LiteralReal),
         map(
-            tuple((opt(token!(Operator(o))), token!(Float(v)))),
-            |(op, v)| {
-                let sign = match op {
-                    None => 1f64,
-                    Some(Operator::Minus) => -1f64,
-                    _ => panic!("Implement this error"), // TODO
-                };
-                ArithmeticOperand::LiteralReal(sign * v)
-            },
-        ),
-        map(
-            tuple((opt(token!(Operator(o))), token!(Integer(v)))),
-            |(op, v)| {
-                let sign = match op {
-                    None => 1,
-                    Some(Operator::Minus) => -1,
-                    _ => panic!("Implement this error"), // TODO
-                };
-                ArithmeticOperand::LiteralInteger(sign * (v as i64))
-            },
+            parse_signed_integer_literal,
+            ArithmeticOperand::LiteralInteger,
         ),
         map(parse_memory_reference, ArithmeticOperand::MemoryReference),
     ))(input)
@@ -80,27 +102,10 @@ pub(crate) fn parse_comparison_operand<'a>(
     input: ParserInput<'a>,
 ) -> InternalParserResult<'a, ComparisonOperand> {
     alt((
+        map(parse_signed_real_literal, ComparisonOperand::LiteralReal),
         map(
-            tuple((opt(token!(Operator(o))), token!(Float(v)))),
-            |(op, v)| {
-                let sign = match op {
-                    None => 1f64,
-                    Some(Operator::Minus) => -1f64,
-                    _ => panic!("Implement this error"), // TODO
-                };
-                ComparisonOperand::LiteralReal(sign * v)
-            },
-        ),
-        map(
-            tuple((opt(token!(Operator(o))), token!(Integer(v)))),
-            |(op, v)| {
-                let sign = match op {
-                    None => 1,
-                    Some(Operator::Minus) => -1,
-                    _ => panic!("Implement this error"), // TODO
-                };
-                ComparisonOperand::LiteralInteger(sign * (v as i64))
-            },
+            parse_signed_integer_literal,
+            ComparisonOperand::LiteralInteger,
         ),
         map(parse_memory_reference, ComparisonOperand::MemoryReference),
     ))(input)
@@ -111,17 +116,7 @@ pub(crate) fn parse_binary_logic_operand<'a>(
     input: ParserInput<'a>,
 ) -> InternalParserResult<'a, BinaryOperand> {
     alt((
-        map(
-            tuple((opt(token!(Operator(o))), token!(Integer(v)))),
-            |(op, v)| {
-                let sign = match op {
-                    None => 1,
-                    Some(Operator::Minus) => -1,
-                    _ => panic!("Implement this error"), // TODO
-                };
-                BinaryOperand::LiteralInteger(sign * (v as i64))
-            },
-        ),
+        map(parse_signed_integer_literal, BinaryOperand::LiteralInteger),
         map(parse_memory_reference, BinaryOperand::MemoryReference),
     ))(input)
 }
